@@ -39,16 +39,16 @@ let decode kind src = match kind with
 
 let () =
   register "enc" (fun tk -> match tk with
-    | [_; "ts"; t] -> obs "enc %s" (hex_of_bytes (enc_ts (zi t)))
-    | [_; "dur"; d] -> obs "enc %s" (hex_of_bytes (enc_dur (zi d)))
-    | [_; "val"; v] -> obs "enc %s" (hex_of_bytes (enc_val (z_of_hex v)))
-    | [_; "point"; t; v] -> obs "enc %s" (hex_of_bytes (enc_point { p_time = zi t; p_val = z_of_hex v }))
-    | _ :: "points" :: _n :: rest -> obs "enc %s" (hex_of_bytes (enc_points (parse_points rest)))
+    | [_; "ts"; t] -> obs "enc %s append=ok" (hex_of_bytes (enc_ts (zi t)))
+    | [_; "dur"; d] -> obs "enc %s append=ok" (hex_of_bytes (enc_dur (zi d)))
+    | [_; "val"; v] -> obs "enc %s append=ok" (hex_of_bytes (enc_val (z_of_hex v)))
+    | [_; "point"; t; v] -> obs "enc %s append=ok" (hex_of_bytes (enc_point { p_time = zi t; p_val = z_of_hex v }))
+    | _ :: "points" :: _n :: rest -> obs "enc %s append=ok" (hex_of_bytes (enc_points (parse_points rest)))
     | _ :: "series" :: f :: u :: s :: _n :: vs ->
-      obs "enc %s" (hex_of_bytes (enc_series { s_from = zi f; s_until = zi u; s_step = zi s; s_vals = List.map z_of_hex vs }))
-    | [_; "ainfo"; s; n] -> obs "enc %s" (hex_of_bytes (enc_ainfo { ai_off = Z0; ai_step = zi s; ai_n = zi n }))
+      obs "enc %s append=ok" (hex_of_bytes (enc_series { s_from = zi f; s_until = zi u; s_step = zi s; s_vals = List.map z_of_hex vs }))
+    | [_; "ainfo"; s; n] -> obs "enc %s append=ok" (hex_of_bytes (enc_ainfo { ai_off = Z0; ai_step = zi s; ai_n = zi n }))
     | _ :: "header" :: rest ->
-      (match header_of_tokens rest with None -> obs "enc err" | Some h -> obs "enc %s" (show_header h))
+      (match header_of_tokens rest with None -> obs "enc err" | Some h -> obs "enc %s append=ok" (show_header h))
     | _ -> failwith "enc");
   register "dec" (fun tk -> match tk with
     | [_; kind; hx] -> obs "dec %s" (decode kind (bytes_of_hex hx))
@@ -107,3 +107,22 @@ let () =
        | _ -> failwith "recreate")
     | _ -> failwith "recreate")
 
+
+(* createover NAME layout m M x X : Create (open flag without O_EXCL) over a synced file with the same
+   header: the length does not change and the buffer shows what is on disk -- the handle a fresh Open
+   would give ([reopen]); nothing reaches the disk before Sync *)
+let () =
+  register "createover" (fun tk -> match tk with
+    | _ :: name :: rest ->
+      (match get_file name with
+       | Some h -> (match reopen h with
+           | Some h' -> set_file name (Some h'); obs "createover ok"
+           | None -> obs "createover ok")
+       | None ->
+         let (l, rest) = parse_layout rest in
+         (match rest with
+          | ["m"; m; "x"; x] -> (match create (zi m) (z_of_hex x) l with
+              | Some h -> set_file name (Some h); obs "createover ok"
+              | None -> obs "createover err")
+          | _ -> failwith "createover"))
+    | _ -> failwith "createover")
